@@ -60,6 +60,7 @@ func c11Containers(tier string) []c11Container {
 		{"🌍", "a", "👋", "é", "x", "🎉", "か"},
 		{"é", "a", "́", "z", "か", "̈", "y"},                    // combining marks are code points of their own
 		{"\ufffd", "a", "\ufffd", "\ufffd", "b", "é", "\ufffd"}, // U+FFFD is an ordinary character of a string
+		{"\\xff", "a", "\\xfe", "b", "\\xc3", "c", "\\x80"}, // bytes that are not valid UTF-8 count as one character (U+FFFD) each
 		{"€", "\\t", "\\\"", " ", "\\\\", "\\n", "'"},
 	}
 	for n := 0; n <= maxLen; n++ {
@@ -244,7 +245,7 @@ func c11Run(c *core.Ctx, i int) {
 			pre = "t0 := s[0] + s[-1] + s[:1]\nprint ((len t0) > 0)\n"
 		}
 		body := pre + "ca := s + \"X\"\ncb := s + \"Yé\"\ncc := ca + \"Z\"\ncd := ca + \"W🌍\"\nprint ca[n] cb[n] ca[-1] cb[-1] ca[n:] cb[n:] cc[n+1] cd[n+1] cc[-1] cd[-1] (len ca) (len cb) (len cc) (len cd)\nprint ca cb cc cd\n"
-		full := strings.Join(ct.elems, "")
+		full, _ := strconv.Unquote(ct.lit) // the whole string is printed as it is (also bytes that are no characters)
 		want := []string{}
 		if n > 0 {
 			want = append(want, "print "+strconv.Quote("true\n"))
@@ -409,6 +410,11 @@ print errmsg[0]
 						wv = "true"
 					}
 					body = "t := " + expr + "\nif (len t) > 0\n    t[0] = " + wv + "\nend\nprint s\n"
+					if (ai+bi)%2 == 1 {
+						// the sliced operand is the result of a call that returns the array itself
+						tdecl := strings.TrimSuffix(strings.TrimPrefix(ct.decl, "s:"), "\n")
+						body = "func same:" + tdecl + " p:" + tdecl + "\n    return p\nend\nt := (same s)[" + a.expr + ":" + b.expr + "]\nif (len t) > 0\n    t[0] = " + wv + "\nend\nprint s\n"
+					}
 				}
 				c.Distinct(ct.lit + form + expr)
 				o := run(body)
